@@ -212,8 +212,8 @@ storage_close(struct Storage* self)
     CHECK(self);
     storage_stop(self);
 
+    // The driver releases the device: `self` must not be touched afterwards.
     driver_close_device(&self->device);
-    self->state = DeviceState_Closed;
 Error:;
 }
 
